@@ -200,7 +200,13 @@ def check(ctx) -> None:
             for h in t.handlers:
                 reraises = any(isinstance(x, ast.Raise) for x in ast.walk(h))
                 st = _issue_store(ctx, h, f, issue_names)
-                text_ok = st is not None and _nonempty_text(st.value, f) or (st is not None and isinstance(st.value, ast.Call) and getattr(st.value.func, "id", "") == "str")
+                sval = st.value if st is not None else None
+                if isinstance(sval, ast.Name):
+                    # a local of the handler bound once (`msg = str(e)`; `row[issue] = msg`)
+                    d_ = [v for x in ast.walk(h) if isinstance(x, ast.Assign) and len(x.targets) == 1 and isinstance(x.targets[0], ast.Name) and x.targets[0].id == sval.id for v in [x.value]]
+                    if len(d_) == 1:
+                        sval = d_[0]
+                text_ok = st is not None and _nonempty_text(sval, f) or (st is not None and isinstance(sval, ast.Call) and getattr(sval.func, "id", "") == "str")
                 # writes in the handler: only the issue of the local record
                 others = [x for x in ast.walk(h) if isinstance(x, ast.Assign) and x is not st and any(isinstance(tg, ast.Subscript) for tg in x.targets)]
                 ok1 = not reraises
@@ -468,3 +474,7 @@ def check(ctx) -> None:
     # X9: a reaction whose search failed under every condition has no entry in the result tables; the results of the
     # others are attached through the id -> index map, never by position (shared with C06-B2)
     c06.rule_b2(ctx, pl, "C11-X9")
+    # X12: the handlers that record a fault cannot fail themselves (shared with C06-B16); X13: they are complete
+    # (shared with C06-B14)
+    c06.rule_fence_handler_total(ctx, ctx.pipeline_reachable(), "C11-X12")
+    c06.rule_b14(ctx, ctx.pipeline_reachable(), "C11-X13")
